@@ -190,6 +190,19 @@ pub fn c06_check(c: &InitCase) -> Result<(bool, Vec<&'static str>), String> {
             Ok(())
         })??;
         g("validate", || a.validate())?;
+        // "all counts": also the counts per class and per tree, once no slot holds a tree
+        g("drain", || {
+            a.drain();
+            fa.drain();
+        })?;
+        let view = |x: &LLFree| {
+            let words: Vec<_> = (0..x.trees.len()).map(|i| x.trees.stats_at(TreeId(i))).collect();
+            format!("{:?} trees={words:?}", x.tree_stats())
+        };
+        let (va, vf) = (g("tree_stats", || view(a))?, g("tree_stats", || view(fa))?);
+        if va != vf {
+            return Err(format!("{tag}: after freeing everything (and a drain) the per-class / per-tree counts are {va}, a free-all allocator reports {vf}"));
+        }
     }
     let nt = n % HUGE_FRAMES != 0 || n % TREE_FRAMES != 0;
     let mut cl = vec![];
